@@ -107,7 +107,7 @@ func runSolver(s solverCfg, file string, ms int) (verdict, out string, secs floa
 // solveOne decides one obligation with a staged portfolio.
 func solveOne(o *Obligation, watch []string, opts solveOpts, idx int) {
 	file := filepath.Join(opts.workDir, fmt.Sprintf("q%05d.smt2", idx))
-	if err := os.WriteFile(file, []byte(queryText(o, watch)), 0o644); err != nil {
+	if err := os.WriteFile(file, []byte("; "+strings.ReplaceAll(o.Name, "\n", " ")+"\n"+queryText(o, watch)), 0o644); err != nil {
 		o.Result, o.Output = "undecided", err.Error()
 		return
 	}
